@@ -1,8 +1,9 @@
 /-
   C20 — Forced metadata checks keep invalid fragments out of the decoded result.
 
-  `forced_is_filtered`   with force_metadata_checks, decode of any fragment list whose headers are
-                         acceptable equals plain decode of the sub-list of fragments that pass
+  `forced_is_filtered`   with force_metadata_checks, decode of any fragment list whose headers pass
+                         the header loop (acceptable, announced sizes within the declared length:
+                         `gateBad fragLen` false on all) equals plain decode of the sub-list of fragments that pass
                          per-fragment validation (or EINSUFFFRAGS when fewer than k pass): an
                          invalid fragment never takes part — neither in the fast path nor in the
                          partition / backend decode;
@@ -19,7 +20,7 @@ namespace LecProps.C20
 open Lec
 
 theorem forced_is_filtered (env : Env) (be : Backend) (i : Inst) (frags : List Bytes) (fragLen : Nat)
-    (hn : i.k ≤ frags.length) (hl : 80 ≤ fragLen) (hh : frags.any isInvalidHeader = false) :
+    (hn : i.k ≤ frags.length) (hl : 80 ≤ fragLen) (hh : frags.any (gateBad fragLen) = false) :
     decode env be i frags fragLen true =
       (if (frags.filter (fun f => !isInvalidFragment env be i f)).length < i.k
        then .error (.rc (-EINSUFFFRAGS))
@@ -28,19 +29,21 @@ theorem forced_is_filtered (env : Env) (be : Backend) (i : Inst) (frags : List B
 
 theorem invalid_ignored (env : Env) (be : Backend) (i : Inst) (frags : List Bytes) (fragLen : Nat)
     (f : Bytes) (hbad : isInvalidFragment env be i f = true)
-    (hn : i.k ≤ (frags.erase f).length) (hl : 80 ≤ fragLen) (hh : frags.any isInvalidHeader = false) :
+    (hn : i.k ≤ (frags.erase f).length) (hl : 80 ≤ fragLen) (hh : frags.any (gateBad fragLen) = false) :
     decode env be i frags fragLen true = decode env be i (frags.erase f) fragLen true :=
   decode_forced_ignores_invalid env be i frags fragLen f hbad hn hl hh
 
 /-- damaged stripe: every supplied fragment either is a genuine fragment of the stripe or fails
     validation (payload bit flips under CRC32, re-sealed header edits of index / backend id /
-    version).  If the genuine ones are within tolerance the forced decode returns the input. -/
+    version) and all pass the header loop for the declared length (`hh`; genuine fragments always
+    do, `EncView.sub_gate` / C09 `fresh_fits`).  If the genuine ones are within tolerance the forced
+    decode returns the input. -/
 theorem valid_within_tolerance (env : Env) (be : Backend) (i : Inst) (data : Bytes) (enc frags : List Bytes)
     {tol : List Nat → Prop} {bsOK : Nat → Prop}
     (hE : EncodeOK be i.k i.m bsOK) (hD : DecodeOK be i.k i.m tol bsOK)
     (hbs : bsOK (blockSize i data.length)) (hok : FrontOK env i data.length)
     (hc : be.compat i.beVer = true) (henc : encode env be i data = .ok enc)
-    (hh : frags.any isInvalidHeader = false)
+    (hh : frags.any (gateBad (80 + blockSize i data.length)) = false)
     (hdam : ∀ f ∈ frags, f ∈ enc ∨ isInvalidFragment env be i f = true)
     (hgood : ∀ f ∈ frags, f ∈ enc → isInvalidFragment env be i f = false)
     (htol : tol (missingOfStripe enc (frags.filter (fun f => !isInvalidFragment env be i f))))
@@ -57,16 +60,20 @@ theorem valid_within_tolerance (env : Env) (be : Backend) (i : Inst) (data : Byt
     · simp [h] at hf2
   exact LecProps.C01.roundtrip env be i data enc _ hE hD hbs hok hc henc hsub htol hmiss hn false
 
-/-- … and whatever the damage, the result is the input or a negative error code. -/
+/-- … and whatever the damage (headers rejected by the header loop included: EBADHEADER), the result
+    is the input or a negative error code. -/
 theorem never_other_bytes (env : Env) (be : Backend) (i : Inst) (data : Bytes) (enc frags : List Bytes)
     {bsOK : Nat → Prop} (hE : EncodeOK be i.k i.m bsOK) (hS : DecodeSound be i.k i.m bsOK)
     (hneg : ∀ d p ms b e, be.decode d p ms b = .error (.rc e) → e < 0)
     (hbs : bsOK (blockSize i data.length)) (hok : FrontOK env i data.length)
     (henc : encode env be i data = .ok enc)
-    (hh : frags.any isInvalidHeader = false) (hk : i.k ≤ frags.length)
+    (hk : i.k ≤ frags.length)
     (hdam : ∀ f ∈ frags, f ∈ enc ∨ isInvalidFragment env be i f = true) :
     decode env be i frags (80 + blockSize i data.length) true = .ok data ∨
     ∃ e, decode env be i frags (80 + blockSize i data.length) true = .error (.rc e) ∧ e < 0 := by
+  by_cases hg : frags.any (gateBad (80 + blockSize i data.length)) = true
+  · exact Or.inr ⟨_, decode_gate_fail env be i frags _ true hk (by simp [Hdr.size]) hg, by decide⟩
+  have hh : frags.any (gateBad (80 + blockSize i data.length)) = false := by simpa using hg
   rw [forced_is_filtered env be i frags _ hk (by omega) hh]
   split
   · exact Or.inr ⟨_, rfl, by decide⟩
